@@ -11,6 +11,7 @@ import HC.Proofs.BlockUpgrade
 import HC.Proofs.BlockGrow
 import HC.Proofs.BlockGrowWriter
 import HC.Proofs.BlockNew
+import HC.Proofs.BlockGrowGen
 /-!
 # C03 — any honest proof is accepted and replicas converge to the writer's data
 
@@ -546,5 +547,38 @@ theorem honest_new_block_with_upgrade_accepted (C : Crypto) (hC : TreeStore.Hash
   obtain ⟨a, b, k, cs', h1, h2, h3, h4, h5, h6, h7, h8, h9, h10, h11, h12, h13, _⟩ :=
     BlockNew.honest_new_block_upgrade_accepted C hC bs m n c d held h hm0 hmn hn us hup sig hsl hver i hmi hi
   exact ⟨a, b, k, cs', h1, h2, h3, h4, h5, h6, h7, h8, h9, h10, h11, h12, h13⟩
+
+/-- **the next block + upgrade in one proof, at core level** — the live-download step.  For every replica state that satisfies
+    the invariants (length `m > 0`) and every upgrade `m → n` of the writer's log: block `m` lies under exactly one node
+    `(k, m / 2^k)` of the honest position list (`BlockGrowGen.nextblock_split`), and for that split `verify_and_apply_proof` on
+    the writer's answer to "block `m` and upgrade me to `n`" returns `true`; the block's byte offset is the replica's byte
+    length, one entry carries nodes + upgrade + bitfield update; afterwards the replica shows the first `n` blocks of
+    the writer's log with block `m` held, and the invariants hold again (reopen: `replica_reopens`' machinery; crashes:
+    `C02.replica_nextblock_crash_atomic`). -/
+theorem next_block_with_upgrade_applied (C : Crypto) (hC : TreeStore.HashWF C) (hT : TreeStore.TreeWF C) (bs : Array Bytes) (m n : Nat) (c : Core) (d : Disk)
+    (held : Nat → Bool) (h : ReplicaReopen.RP C bs m c d held) (hm0 : 0 < m) (hmn : m < n) (hn : n ≤ bs.size) (us : List (Nat × Nat))
+    (hup : Growth.Up m 0 (RefTree.rootsStack n).reverse us) (sig : Bytes) (hsl : sig.length = 64)
+    (hver : C.verify c.publicKey (Growth.signableAt C bs n c.tree.fork) sig = true)
+    (a b : List (Nat × Nat)) (k : Nat) (hsplit : us = a ++ (k, m / 2 ^ k) :: b) :
+    let st := c.verifyAndApply C d (BlockGrowGen.honestNextBlock C bs c.tree.fork m n a b k sig)
+    st.result = .ok true
+      ∧ st.core.tree.length = n ∧ st.core.tree.byteLength = Offsets.psum bs n
+      ∧ (st.core.getBlock (d.applyAll st.journal) m).result = .ok (some (bs.getD m []))
+      ∧ (∀ j, held j = true → (st.core.getBlock (d.applyAll st.journal) j).result = .ok (some (bs.getD j [])))
+      ∧ (∀ j, st.core.has j = (held j || j == m))
+      ∧ ReplicaReopen.RP C bs n st.core (d.applyAll st.journal) (fun j => held j || j == m) := by
+  intro st
+  obtain ⟨c1, e, j0, hk⟩ := BlockGrowGen.nextblock_ok C hC hT bs m n c d held h hm0 hmn hn us hup sig hsl hver a b k hsplit
+  obtain ⟨r1, r2, _, _⟩ := ReplicaReopen.rp_of_ok C bs m n c c1 d held _ _ e j0 h hk
+  refine ⟨r1, r2.rep.closed.sparse.length, r2.rep.bytes, ?_, ?_, ?_, r2⟩
+  · exact Growth.get_held_at C bs n _ _ _ r2.rep m (by simp)
+  · intro j hj
+    exact Growth.get_held_at C bs n _ _ _ r2.rep j (by simp [hj])
+  · intro j
+    simpa [Core.has] using r2.rep.bits j
+
+/-- non-vacuity of the split -/
+example (m n : Nat) (hmn : m < n) (us : List (Nat × Nat)) (hup : Growth.Up m 0 (RefTree.rootsStack n).reverse us) :
+    ∃ (a b : List (Nat × Nat)) (k : Nat), us = a ++ (k, m / 2 ^ k) :: b := BlockGrowGen.nextblock_split m n hmn us hup
 
 end HC.C03
